@@ -1288,6 +1288,23 @@ class CallMixin:  # pylint:disable=too-many-public-methods
                     return args[1]
                 self.raise_("StopIteration")
             self.raise_("TypeError", f"'{self.class_of(items)}' object is not an iterator")
+        if name == "heapq.merge":
+            # the real algorithm (a k-way merge that *assumes* sorted inputs), not a sort: unsorted inputs stay unsorted
+            import heapq as _hq
+            key, rev = kwargs.get("key"), bool(kwargs.get("reverse", False))
+
+            def k_(x):
+                v = self.call(key, [x], {}, node, frame) if key is not None else x
+                if isinstance(v, EnumVal):
+                    v = v.value
+                if not isinstance(v, (int, str, float, tuple)):
+                    raise Unsupported(f"merge key {v!r}")
+                return v
+
+            try:
+                return list(_hq.merge(*[self.iterate(a, node, frame) for a in args], key=k_, reverse=rev))
+            except TypeError as err:
+                raise Unsupported(f"heapq.merge: {err}") from err
         if name == "itertools.chain.from_iterable":
             return [x for sub_ in self.iterate(args[0], node, frame) for x in self.iterate(sub_, node, frame)]
         if name == "itertools.compress":
